@@ -293,6 +293,8 @@ def c15(run):
         r10_args.check_extraction_units(run, prog.func(k))
     r10_args.check_order_tables(run)
     r10_args.check_recursion_options(run, prog.analysed_functions())
+    r10_args.check_broadcast_stores(run, prog.analysed_functions())
+    run.floor('R10l', 4)
     r3_ctor.run_r3(run)
     r2_none.run_r2(run, closure(fl, depth=0 if run.tier == 'quick' else 1, prog=prog))
     run.floor('R10a', 60)
@@ -470,6 +472,8 @@ def c02(run):
 def c04(run):
     r16_tables.tables_c04(run)
     r16_tables.check_trlog_dependence(run)
+    r16_tables.check_matrix_fn(run, 'base/quaternions:q2r', 'q2r', r16_tables_q2r())
+    r19_angles.check_r2q(run)
     r10_args.run_r10(run, [run.prog.func(k) for k in ('twist:Twist3.Rx', 'twist:Twist3.Ry', 'twist:Twist3.Rz')])
     _scope_rules(run, 'C04')
     run.floor('R13', 40)
